@@ -78,7 +78,7 @@ type World struct {
 	seq int
 }
 
-var pureFns = map[string]bool{"CI": true, "CS": true, "CB": true, "C64": true, "OpA": true, "OpB": true}
+var pureFns = map[string]bool{"Ff": true, "CI": true, "CS": true, "CB": true, "C64": true, "OpA": true, "OpB": true}
 
 func NewWorld(stateful bool, faults []CallFault, poison []PoisonFault) *World {
 	return &World{Stateful: stateful, Phase: "run", faults: faults, poison: poison}
@@ -236,6 +236,22 @@ type Env struct {
 	Any        interface{}
 	Fn         func(int) int
 	Objs       []*Obj
+
+	// Members of other numeric kinds (derived from the data above): operands of
+	// every static type for the optimiser's rewrites (C02 typed-operand probes).
+	U8  uint8
+	U16 uint16
+	I8  int8
+	I64 int64
+	F64 float64
+	F32 float32
+}
+
+// Ff is a pure float function (integer literals in its argument are retyped).
+func (e Env) Ff(x float64) float64 {
+	_, _ = e.w.enter("Ff", x)
+	defer e.w.leave("Ff")
+	return x*2 + 0.25
 }
 
 func (e Env) F1(a int) int {
@@ -455,6 +471,12 @@ func BuildEnv(w *World, d *EnvData) *Env {
 	if d.Ss != nil {
 		e.Ss = append([]string{}, d.Ss...)
 	}
+	e.U8 = uint8((d.A + 8) * 15)
+	e.U16 = uint16(d.B+8) * 4000
+	e.I8 = int8(d.C * 40)
+	e.I64 = int64(d.A) * 1000003
+	e.F64 = float64(d.N) + 0.5*float64(d.D%2)
+	e.F32 = float32(d.M) + 0.25*float32(d.D%3)
 	e.Mp = make(map[string]int, len(d.MpKeys))
 	for i, k := range d.MpKeys {
 		e.Mp[k] = d.MpVals[i]
@@ -490,6 +512,7 @@ func (e *Env) AsRep(rep string) interface{} {
 			"P": e.P, "Q": e.Q, "S": e.S, "T": e.T, "Re": e.Re,
 			"Xs": e.Xs, "Ys": e.Ys, "Ss": e.Ss, "Mp": e.Mp, "O": e.O, "On": e.On, "Any": e.Any,
 			"Fn": e.Fn, "Objs": e.Objs,
+			"U8": e.U8, "U16": e.U16, "I8": e.I8, "I64": e.I64, "F64": e.F64, "F32": e.F32, "Ff": e.Ff,
 			"F1": e.F1, "F2": e.F2, "G0": e.G0, "P1": e.P1, "S1": e.S1, "Mk": e.Mk, "Va": e.Va,
 			"An": e.An, "OpA": e.OpA, "OpB": e.OpB, "C64": e.C64, "CI": e.CI, "CS": e.CS, "CB": e.CB,
 		}
